@@ -60,6 +60,16 @@ macro_rules! w_all_wide {
     };
 }
 
+/// Widths just above the natural capacity limits of word-sized bookkeeping: 65 limbs (a u64 bitmap
+/// of limbs is full at 64), 129 limbs (u128 bitmap), 257 limbs (u8 limb index), 1025 limbs = 65600
+/// bits (u16 bit index / exponent). Few cases each; added after seeded round 10.
+#[macro_export]
+macro_rules! w_giant {
+    ($m:ident ! ( $($pre:tt)* )) => {
+        $m!($($pre)* [4160, 8256, 16448, 65600])
+    };
+}
+
 /// A reduced grid for expensive-to-compile or expensive-to-run rules.
 #[macro_export]
 macro_rules! w_mid {
